@@ -432,7 +432,7 @@ func init() {
 		}
 		n := 2000
 		if thorough() {
-			n = 40000
+			n = 200000
 		}
 		var jobs []func()
 		gens := []struct {
